@@ -233,3 +233,21 @@ def nontrivial(o):
         return o["out"]["runs"][0]["v12"]["l"][0] == 1
     except Exception:
         return False
+
+MANIFEST = {
+    "text": ("Affinity.tla states compute_affinity as a session of calls on a pair of geometries: exact rational closed forms on an "
+             "integer lattice (IoU of the buffered time extents when either side is time-only, area IoU of two boxes) and the "
+             "clauses Range / Sym / Self / DisjointInTime / BoxIoU / TimeOnly / Shift. MC_Affinity.tla transcribes the dispatch of "
+             "the implementation (which kinds are buffered, time-only vs area branch, zero-union guard); TLC checks on every "
+             "catalogue pair that the dispatch agrees with the closed forms and that the closed forms are in range, symmetric, 1 on "
+             "self, 0 when disjoint and shift invariant away from 0, and enumerates the sessions (33 geometries of all 9 kinds, "
+             "all 45 unordered kind combinations, both argument orders, buffer pairs, shifts). Each session is run on the real code "
+             "at three dyadic units; results travel as limb numbers / hex strings and TLC decides every clause (v <= 1 exactly). "
+             "Random sessions on arbitrary doubles (valid, non-self-intersecting geometries of every kind) exercise the numerical "
+             "clauses. Bounded-exhaustive on the lattice, sampled beyond."),
+    "note": ("trusted: TLC, the binder checks/c06.py (encoder), exact float arithmetic on dyadic units with power-of-two buffers. "
+             "Exact equality is decided where the specification has a closed form; area ratios produced by shapely's overlay are "
+             "decided for range exactly and for symmetry / self / shift within 3e-9; time extents of obliquely capped or mitred "
+             "lines are taken from the public buffer_geometry + compute_bounds (relational clause, 2^-10 tick resolution)."),
+    "design_ref": "DESIGN.md section 4 C06",
+}
